@@ -213,6 +213,38 @@ class L1Cost(BaseCost):
         return out
 
 
+class MemoisingAbsCost(BaseCost):
+    """A user cost that memoises its results per batch of intervals and hands out the cached array itself
+    (sum of absolute values around the fixed / optimal location 0 resp. the mean). A caller that modifies
+    the returned array in place corrupts the memo."""
+
+    def __init__(self, param=None):
+        super().__init__(param)
+
+    def _fit(self, X, y=None):
+        Xa = np.asarray(X, dtype=float)
+        self._rows = Xa.reshape(-1, 1) if Xa.ndim == 1 else Xa
+        self._memo = {}
+        return self
+
+    def _compute(self, starts, ends, fixed):
+        key = (fixed, np.asarray(starts).tobytes(), np.asarray(ends).tobytes())
+        if key not in self._memo:
+            out = np.zeros((len(starts), self._rows.shape[1]))
+            for i, (s, e) in enumerate(zip(starts, ends)):
+                seg = self._rows[s:e]
+                loc = float(self.param) if fixed else seg.mean(axis=0)
+                out[i] = np.abs(seg - loc).sum(axis=0)
+            self._memo[key] = out
+        return self._memo[key]
+
+    def _evaluate_optim_param(self, starts, ends):
+        return self._compute(starts, ends, False)
+
+    def _evaluate_fixed_param(self, starts, ends):
+        return self._compute(starts, ends, True)
+
+
 class TrendPenalisedL2Cost(L2Cost):
     """A user cost that *subclasses the built-in L2Cost* and overrides its evaluation: the L2 cost plus
     `weight` times the squared difference between the last and the first row of the interval."""
